@@ -29,7 +29,7 @@ LEVEL = "model_checking"
 MANIFEST = dict(
     category="model_checking",
     text="TLC checks StatsFaithful, CountersExact, FanOutEqual, StandardCadence, OrbaxCadence (one checkpoint per record that passed >=1 multiple of the interval, none otherwise), OrbaxCoversMultiples, NamesDistinct on the complete bounded call graph of Logger.tla, and shows the implementation's wrap-around-or-gap test equivalent to the floor-crossing test (reachable states and the whole domain I<=12, steps<=60). Every transition of the generated graphs is replayed into MemoryLogger, StandardLogger, OrbaxCheckpointer, StdoutLogger and a LoggerList of all four, comparing get_stat (episode and step x-keys), counters, epoch counts, last_step, checkpoint_path (step/epoch parsed from the names, saved parameter digest) after every call; sampled behaviours write real orbax checkpoints that are restored and compared with the module version at save time. Call histories of a small stateful API are exactly what a state-graph enumeration decides.",
-    note="bounds: keys {a,b}, values 1-2, explicit steps 0-9, intervals 1-4, <=6 (quick) / <=7 (thorough) calls plus simulated behaviours of 30 calls; non-decreasing step sequences per key only; wall-clock fields excluded; AIMLogger not run (needs an Aim repository); trusted: TLC, the in-memory stand-in for orbax' StandardCheckpointer on the large graphs (real orbax on sampled behaviours), path-name parsing in this driver",
+    note="bounds: keys {a,b}, values 1-2, explicit steps 0-9, intervals 1-4, <=5 (quick) / <=7 (thorough) calls plus simulated behaviours of 30 calls; non-decreasing step sequences per key only; wall-clock fields excluded; AIMLogger not run (needs an Aim repository); trusted: TLC, the in-memory stand-in for orbax' StandardCheckpointer on the large graphs (real orbax on sampled behaviours), path-name parsing in this driver",
     technique="TLA+ spec + TLC exhaustive bounded state graph and simulation; transition-coverage replay of TLC-generated transitions into the real logger classes; real orbax save/restore on sampled TLC behaviours",
 )
 
@@ -67,11 +67,12 @@ def cfg_cadence(depth, kinds="so", keys=("a",), steps=range(10), stops=(1, 2, 3)
     )
 
 
-def cfg_mixed(depth, kinds="all", steps=(2, 5), track=True):
+def cfg_mixed(depth, kinds="all", steps=(2, 5), track=True, rich=False):
     """all five calls interleaved, epoch locations tracked"""
     return dict(
-        Kinds=tlc.Subst("K_" + kinds), Keys={"a", "b"}, Values={1}, EpVals={7}, StepVals={9}, EpochSteps=set(steps),
-        StopVals={2}, Intervals={1, 2}, Ops=set(ALL_OPS), MaxCalls=depth, TrackLoc=track, EMIT=False,
+        Kinds=tlc.Subst("K_" + kinds), Keys={"a", "b"}, Values={1, 2} if rich else {1}, EpVals={7}, StepVals={9},
+        EpochSteps={2, 5, 9} if rich else set(steps), StopVals={1, 2} if rich else {2}, Intervals={1, 2, 3} if rich else {1, 2},
+        Ops=set(ALL_OPS), MaxCalls=depth, TrackLoc=track, EMIT=False,
     )
 
 
@@ -153,7 +154,7 @@ class FakeCheckpointer:
 
 _ORBAX_NAME = re.compile(r"^(?P<pre>.*)_(?P<key>[^_]+)_step_(?P<step>\d{9,})_epoch_(?P<epoch>\d+)$")
 _STD_NAME = re.compile(r"^(?P<pre>.*)_(?P<key>[^_]+)_(?P<epoch>\d+)$")
-_LINE = re.compile(r"^\[None\|None\] \((?P<ep>\d{4,})\|(?P<step>\d{6,})\|[-\d.]+\) S (?P<key>\s*\S+): (?P<val>\S+)$")
+_LINE = re.compile(r"^\[[^\]]*\] \((?P<ep>\d{4,})\|(?P<step>\d{6,})\|[-\d.]+\) S (?P<key>\s*\S+): (?P<val>\S+)$")
 
 
 class Ad:
@@ -269,17 +270,15 @@ def restore_digest(path):
 
 def project_member(ad: Ad, kind, lg):
     keys = ad.keys
-    r = {
-        "kind": kind,
-        "nEp": int(lg.n_episodes),
-        "nSteps": int(lg.n_steps),
-        "stats": {k: [] for k in keys + ["episode_length"]},
-        "epochs": {k: 0 for k in keys},
-        "freq": {k: 0 for k in keys},
-        "last": {k: 0 for k in keys},
-        "ck": {k: [] for k in keys},
-        "eloc": {k: [] for k in keys},
-    }
+    r = {"kind": kind, "nEp": int(lg.n_episodes), "nSteps": int(lg.n_steps)}
+    if kind in ("memory", "standard"):
+        r["stats"] = {k: [] for k in keys + ["episode_length"]}
+    if kind in ("standard", "orbax"):
+        r.update(epochs={k: 0 for k in keys}, freq={k: 0 for k in keys}, ck={k: [] for k in keys})
+    if kind == "orbax":
+        r["last"] = {k: 0 for k in keys}
+    if kind == "standard":
+        r["eloc"] = {k: [] for k in keys}
     if kind in ("memory", "standard"):
         for k in lg.stats:
             if k not in r["stats"]:
@@ -341,12 +340,14 @@ def _diff_fields(got, want):
 
 
 def _key(name, v):
+    """stable key: the call and the attribute(s) of the member class(es) that deviate - the same
+    defect gets the same key in every graph (the graph name only appears in the message)"""
     op = v["path"][-1]["op"]
     d = v.get("detail") or {}
     if "got" in d and "want" in d:
-        return f"{name}:{op}:state:{','.join(_diff_fields(d['got'], d['want'])) or 'other'}"
-    what = re.sub(r"\d+", "#", v["what"])[:70]
-    return f"{name}:{op}:{what}"
+        return f"{op}:state:{','.join(_diff_fields(d['got'], d['want'])) or 'other'}"
+    what = v.get("code") or re.sub(r"\d+", "#", v["what"])[:70]
+    return f"{op}:{what}"
 
 
 # --------------------------------------------------------------- real orbax writes
@@ -366,10 +367,10 @@ def tree_paths(G, root):
 
 
 def n_ckpts(state):
-    return sum(len(c) for mem in state["m"] for c in mem["ck"].values())
+    return sum(len(c) for mem in state["m"] for c in mem.get("ck", {}).values())
 
 
-def real_run(G, path, kinds, keys, wrap, track, rep, name, tag):
+def real_run(G, path, kinds, keys, wrap, track, rep, name, tag, experiment=False):
     """Replay one TLC behaviour with REAL orbax checkpointers in a fresh directory,
     compare after every call, restore every listed path at the end.  Returns #writes."""
     d = os.path.join(TMP, f"c20-{os.getpid()}", f"real-{tag}")
@@ -379,6 +380,10 @@ def real_run(G, path, kinds, keys, wrap, track, rep, name, tag):
     writes = 0
     try:
         ad = Ad(kinds, keys, wrap, track=track, ckdir=d, real=True)
+        if experiment:
+            # set-up outside the model: names the run (start_time / env / algorithm enter the directory names)
+            with contextlib.redirect_stdout(io.StringIO()):
+                ad.obj.define_experiment("Pendulum-v1", "TD3_x", {"lr": 0.5})
         for op, args, exp, k2 in path:
             done.append({"op": op, "args": args, "exp": exp})
             want = G.state[k2]
@@ -418,6 +423,11 @@ def real_run(G, path, kinds, keys, wrap, track, rep, name, tag):
     return writes
 
 
+def slice_emits(emitted, i):
+    """the transitions of member i alone (selection of TLC's output, no recomputation)"""
+    return [dict(e, pre={"m": [e["pre"]["m"][i]]}, post={"m": [e["post"]["m"][i]]}) for e in emitted]
+
+
 def _replay(kinds, keys, wrap, track, real, path, want):
     return {"kinds": list(kinds), "keys": sorted(keys), "wrap": wrap, "track": track, "real": real, "path": path, "want": want}
 
@@ -451,8 +461,8 @@ def _nontrivial(G):
         pre = G.state[k]
         for op, args, exp, k2 in es:
             post = G.state[k2]
-            if any(a["stats"] != b["stats"] or a["ck"] != b["ck"] for a, b in zip(pre["m"], post["m"])) and any(
-                a["nEp"] or a["nSteps"] or any(a["epochs"].values()) or any(a["stats"].values()) for a in pre["m"]
+            if any(a.get("stats") != b.get("stats") or a.get("ck") != b.get("ck") for a, b in zip(pre["m"], post["m"])) and any(
+                a["nEp"] or a["nSteps"] or any(a.get("epochs", {}).values()) or any(a.get("stats", {}).values()) for a in pre["m"]
             ):
                 n += 1
     return n
@@ -495,12 +505,22 @@ def run(rep):
     scratch = os.path.join(TMP, f"c20-{os.getpid()}")
     counters = {"edges": 0}
     nontrivial = 0
+    import time
+
+    phase = rep.extra.setdefault("phase_wall_s", {})
+    t_last = [time.time()]
+
+    def lap(name):
+        phase[name] = round(phase.get(name, 0) + time.time() - t_last[0], 1)
+        t_last[0] = time.time()
+
     try:
         # ---- 1. the model: properties on the bounded call graphs -----------------------
-        d_stats, d_cad1, d_cad2, d_mix = (4, 6, 4, 3) if quick else (5, 7, 5, 4)
+        d_stats, d_cad1, d_cad2, d_mix = (4, 5, 4, 3) if quick else (5, 7, 5, 4)
         _check(rep, cfg_stats(d_stats), f"stats histories (all members, <= {d_stats} calls)", "c20stats", cover_ops=["StartEpisode", "StopEpisode", "RecordStat"])
         _check(rep, cfg_cadence(d_cad1), f"cadence key a, steps 0-9, I 1-4 (<= {d_cad1} calls)", "c20cad1", cover_ops=["StopEpisode", "DefineFrequency", "RecordEpochWith"])
-        _check(rep, cfg_cadence(d_cad2, keys=("a", "b")), f"cadence keys a,b (<= {d_cad2} calls)", "c20cad2")
+        c2 = cfg_cadence(d_cad2, keys=("a", "b"), steps=(0, 1, 3, 4, 8, 9), stops=(2,), ivs=(1, 2, 4)) if quick else cfg_cadence(d_cad2, keys=("a", "b"))
+        _check(rep, c2, f"cadence keys a,b (<= {d_cad2} calls" + (", steps {0,1,3,4,8,9}, I {1,2,4})" if quick else ")"), "c20cad2")
         _check(rep, cfg_mixed(d_mix), f"all calls interleaved (all members, <= {d_mix} calls)", "c20mix")
         # equivalence of the implementation's test on the whole bounded domain (initial state only)
         r = tlc.run("Logger", tlc.cfg_text(next="Stop", constants=cfg_cadence(1), invariants=["ImplEquivDomain"]), workers=1, tag="c20dom")
@@ -508,34 +528,42 @@ def run(rep):
         if not r.ok:
             rep.violation("orbax:cadence_test_not_equivalent", "the wrap-around-or-gap test differs from the floor-crossing test for a non-decreasing step pair", r.error_trace)
 
+        lap("tlc_properties")
         # ---- 2. spec canaries: realistic deviations must be refuted -----------------------
         _canary(cfg_cadence(4), "NextBadModulo", "OrbaxCadence", "step % I = 0 cadence")
-        _canary(cfg_cadence(4), "NextBadModulo", "OrbaxCoversMultiples", "step % I = 0 cadence")
+        if not quick:
+            _canary(cfg_cadence(4), "NextBadModulo", "OrbaxCoversMultiples", "step % I = 0 cadence")
         _canary(cfg_cadence(1), "Stop", "ImplEquivDomainBad", "strict gap test")
         _canary(cfg_stats(3), "NextBadStop", "StatsFaithful", "episode_length recorded before the step counter advances")
         _canary(cfg_stats(2), "NextBadFanOut", "FanOutEqual", "record_stat forwarded to the first member only")
 
+        lap("tlc_canaries")
         # ---- 3. spec -> code: transition coverage with the in-memory checkpointer -----------
-        gd_stats, gd_cad, gd_cad2, gd_mix = (3, 4, 3, 3) if quick else (4, 5, 4, 4)
-        plans = []
-        for kn, wrap in [("memory", False), ("standard", False), ("stdout", False), ("all", True)]:
-            plans.append((f"stats/{kn}", cfg_stats(gd_stats, kn), kn, wrap, False))
-        if not quick:
-            plans.append(("stats/orbax", cfg_stats(3, "orbax"), "orbax", False, False))
-        for kn, wrap in [("standard", False), ("orbax", False), ("all", True)]:
-            plans.append((f"cadence/{kn}", cfg_cadence(gd_cad, kn), kn, wrap, False))
-        plans.append(("cadence2/all", cfg_cadence(gd_cad2, "all", keys=("a", "b"), steps=(0, 1, 3, 4, 8, 9), stops=(2,), ivs=(1, 2, 4)), "all", True, False))
-        plans.append(("mixed/all", cfg_mixed(gd_mix), "all", True, True))
-        plans.append(("mixed/standard", cfg_mixed(gd_mix, "standard"), "standard", False, True))
+        gd_stats, gd_cad, gd_cad2, gd_mix = (3, 4, 3, 3) if quick else (4, 5, 4, 3)
+        # one TLC generation run per configuration with the full member list; the single-class
+        # graphs are the member-wise slices of the same TLC output (members evolve independently)
+        plans = [
+            ("stats", cfg_stats(gd_stats), False, ["memory", "standard", "stdout"] + ([] if quick else ["orbax"])),
+            ("cadence", cfg_cadence(gd_cad, "all"), False, ["standard", "orbax"]),
+            ("cadence2", cfg_cadence(gd_cad2, "all", keys=("a", "b"), steps=(0, 1, 3, 4, 8, 9), stops=(2,), ivs=(1, 2, 4)), False, []),
+            ("mixed", cfg_mixed(gd_mix, rich=not quick), True, ["standard"]),
+        ]
         graphs = {}
-        for name, c, kn, wrap, track in plans:
+        for base, c, track, singles in plans:
             G, g = _gen(rep, c, "c20gen")
-            graphs[name] = (G, c, kn, wrap, track)
-            _cover(rep, G, name, kn, c["Keys"], wrap, track, counters)
-            nontrivial += _nontrivial(G)
-            if name in ("cadence/orbax", "stats/memory"):
-                e = g.emitted[len(g.emitted) * 2 // 3]
-                rep.sample({"graph": name, "op": e["op"], "args": e["args"], "exp": e["exp"], "post": e["post"]})
+            lap("tlc_generation")
+            todo = [(f"{base}/all", G, "all", True)]
+            for kn in singles:
+                todo.append((f"{base}/{kn}", graph.Graph(slice_emits(g.emitted, KIND_LISTS["all"].index(kn))), kn, False))
+            for name, Gx, kn, wrap in todo:
+                graphs[name] = (Gx, c, kn, wrap, track)
+                _cover(rep, Gx, name, kn, c["Keys"], wrap, track, counters)
+                rep.extra.setdefault("graphs", {})[name] = {"states": len(Gx.state), "transitions": Gx.n_edges}
+                nontrivial += _nontrivial(Gx)
+                if name in ("cadence/orbax", "stats/memory"):
+                    e = Gx.out[sorted(Gx.out)[len(Gx.out) * 2 // 3]][-1]
+                    rep.sample({"graph": name, "op": e[0], "args": e[1], "exp": e[2], "post": Gx.state[e[3]]})
+            lap("replay")
 
         # ---- 4. binding canary: a corrupted expected checkpoint version must be noticed -------
         G, c, kn, wrap, track = graphs["cadence/orbax"]
@@ -553,6 +581,7 @@ def run(rep):
         if not hit or not res["violations"]:
             raise tlc.MachineryError("binding canary: a corrupted expected checkpoint digest was not noticed")
 
+        lap("binding_canary")
         # ---- 5. real orbax writes + restores on sampled behaviours of the cadence graphs ------
         budget = 90 if quick else 600  # real checkpoint directories (~0.06 s each)
         writes = 0
@@ -567,7 +596,7 @@ def run(rep):
             for i, k in enumerate(dict.fromkeys(pick)):
                 if share <= 0:
                     break
-                w = real_run(G, paths[k], KIND_LISTS[kn], c["Keys"], wrap, track, rep, name, f"{name.replace('/', '-')}-{i}")
+                w = real_run(G, paths[k], KIND_LISTS[kn], c["Keys"], wrap, track, rep, name, f"{name.replace('/', '-')}-{i}", experiment=bool(i % 2))
                 writes += w
                 share -= max(w, 1)
                 n_real += 1
@@ -579,12 +608,14 @@ def run(rep):
         if writes == 0:
             raise tlc.MachineryError("no real checkpoint was written")
 
+        lap("real_orbax")
         # ---- 6. long simulated behaviours (beyond the exhaustive bound) -----------------------
         num, depth = (6, 24) if quick else (60, 30)
         Gs, g = _gen(rep, cfg_sim(depth), "c20sim", simulate=f"num={num}", depth=depth + 2, seed=rep.seed + 1)
         res = _cover(rep, Gs, "sim/all", "all", {"a", "b"}, True, True, counters)
         rep.extra["simulated_transitions"] = Gs.n_edges
         nontrivial += _nontrivial(Gs)
+        lap("simulation")
     finally:
         shutil.rmtree(scratch, ignore_errors=True)
 
@@ -603,7 +634,7 @@ def run(rep):
         "large graphs use an in-memory stand-in for orbax' StandardCheckpointer (save/wait_until_finished, refuses existing destinations); real orbax save+restore on sampled behaviours",
         "one logger instance per checkpoint directory; two instances sharing directory, env/algorithm name and start_time are out of scope (orbax refuses the second write with ValueError)",
         "AIMLogger not exercised (needs an Aim repository)",
-        "bounded: <= %d calls exhaustive in TLC, replayed graphs <= %d calls" % ((6, 4) if quick else (7, 5)),
+        "bounded: <= %d calls exhaustive in TLC, replayed graphs <= %d calls (then simulated behaviours of %d calls)" % ((5, 4, 24) if quick else (7, 5, 30)),
     ]
 
 
